@@ -239,6 +239,8 @@ class C01(Check):
 
     def run(self) -> None:
         mod = self.prog.module(MOD)
+        self.borrow("C13", ("N2", "N3"), "A8")
+        self.borrow("C03", ("I1", "I5"), "A9")
         self.containers: dict[str, str] = {}
         self.a1(mod)
         self.a2(mod)
@@ -247,8 +249,6 @@ class C01(Check):
         self.a5(mod)
         self.a6(mod)
         self.a7(mod)
-        self.borrow("C13", ("N2", "N3"), "A8")
-        self.borrow("C03", ("I1", "I5"), "A9")
         self.a10(mod)
 
     def a10(self, mod) -> None:
